@@ -500,7 +500,44 @@ func (e *Eval) binop(x *ssa.BinOp, a, b Value) Value {
 			return res
 		}
 	}
+	// integer term plus/minus a constant: kept in the normal form base{+k}, so that len(x)-1-1 and len(x)-2 (and
+	// last-n for a constant n) are the same term
+	if (x.Op == token.ADD || x.Op == token.SUB) && isIntType(x.Type()) {
+		if b.K == Const && b.C.Kind() == constant.Int && a.K != Const && a.T != "" {
+			if c, ok := constant.Int64Val(b.C); ok {
+				if x.Op == token.SUB {
+					c = -c
+				}
+				return Value{K: Unknown, T: affineAdd(a.T, c)}
+			}
+		}
+		if x.Op == token.ADD && a.K == Const && a.C.Kind() == constant.Int && b.K != Const && b.T != "" {
+			if c, ok := constant.Int64Val(a.C); ok {
+				return Value{K: Unknown, T: affineAdd(b.T, c)}
+			}
+		}
+	}
 	return Value{K: Unknown, T: fmt.Sprintf("%s(%s,%s)", x.Op, a.Term(), b.Term())}
+}
+
+func isIntType(t types.Type) bool {
+	b, ok := t.Underlying().(*types.Basic)
+	return ok && b.Info()&types.IsInteger != 0
+}
+
+// affineAdd adds a constant to an integer term, keeping the normal form base{+k}.
+func affineAdd(t string, c int64) string {
+	base, k := t, int64(0)
+	if i := strings.LastIndex(t, "{"); i >= 0 && strings.HasSuffix(t, "}") {
+		if n, err := strconv.ParseInt(t[i+1:len(t)-1], 10, 64); err == nil {
+			base, k = t[:i], n
+		}
+	}
+	k += c
+	if k == 0 {
+		return base
+	}
+	return fmt.Sprintf("%s{%+d}", base, k)
 }
 
 // nonNilConstructors: standard library functions documented to return a non-nil value.
